@@ -261,4 +261,34 @@ void runFpProbe(const Opts& o, long idx, CaseLog& log) {
     unlink(fp);
 }
 
+
+// C14: objects assembled with the SIZE constructors (Points(n), Analogs(n), SubFrame(n)) and default-constructed points/channels whose
+// values the caller never sets; what is saved must still be determined by the object (zeros), not by whatever the heap held.
+void runSizedSave(const Opts& o, long idx, CaseLog& log) {
+    typedef ezc3d::ParametersNS::GroupNS::Parameter Param;
+    Rng r(o.seed, (uint64_t)idx * 17 + 3);
+    int np = r.range(0, 6), nc = r.range(1, 6), ns = r.range(1, 4), nf = r.range(1, 5);
+    ezc3d::c3d c;
+    { Param p("RATE"); p.set(std::vector<float>(1, 100.f)); c.parameter("POINT", p); Param a("RATE"); a.set(std::vector<float>(1, 100.f * ns)); c.parameter("ANALOG", a); }
+    for (int i = 0; i < np; ++i) c.point("S" + std::to_string(i));
+    for (int i = 0; i < nc; ++i) c.analog("Z" + std::to_string(i));
+    // scribble over the heap first so that fresh allocations do not come back zeroed by chance
+    { std::vector<std::vector<float> > junk; for (int k = 0; k < 200; ++k) junk.push_back(std::vector<float>((size_t)r.range(1, 64), 1234.5f + k)); }
+    Outcome fo;
+    for (int f = 0; f < nf && !fo.threw; ++f) {
+        ezc3d::DataNS::Points3dNS::Points pts((size_t)np);                       // np default points
+        for (int i = 0; i < np; ++i) pts.point_nonConst((size_t)i).name("S" + std::to_string(i));   // named, coordinates never set
+        ezc3d::DataNS::AnalogsNS::Analogs an((size_t)ns);                         // ns default sub-frames
+        for (int s = 0; s < ns; ++s) an.subframe_nonConst((size_t)s) = ezc3d::DataNS::AnalogsNS::SubFrame((size_t)nc);   // nc default channels, values never set
+        ezc3d::DataNS::Frame fr; fr.add(pts, an);
+        log.pre("frame"); VF_TRY(fo, c.frame(fr));
+    }
+    log.ev("sized_frames", "np=" + std::to_string(np) + " nc=" + std::to_string(nc) + " ns=" + std::to_string(ns) + " nf=" + std::to_string(nf), fo);
+    char fp[700]; snprintf(fp, sizeof fp, "%s/sized_%ld.c3d", o.out.c_str(), idx);
+    Outcome so; log.pre("write"); VF_TRY(so, c.write(fp)); log.ev("save", "", so);
+    // a default point / channel reads as zero
+    bool zero = true; for (size_t f = 0; f < c.data().nbFrames(); ++f) { const ezc3d::DataNS::Frame& F = c.data().frame(f); for (size_t i = 0; i < F.points().nbPoints(); ++i) if (fbits(F.points().point(i).x()) | fbits(F.points().point(i).residual())) zero = false; }
+    log.line("RES %ld %s frames=%zu default_points_zero=%d", idx, so.threw ? "save_threw" : "ok", c.data().nbFrames(), zero ? 1 : 0);
+}
+
 }  // namespace vf
